@@ -109,22 +109,28 @@ def analyse_parse():
     restored = tr.finalbody[0].value
     calltime = calltime and isinstance(restored, ast.Name) and restored.id == local
     # both switching methods: with self.__parseSetting(): <everything> ; return name
-    for mname in ('parseStyle', 'parseString'):
+    for mname in ('parseStyle', 'parseString', '_parseDecoded'):
         m = _method(cls, mname)
         if m is None:
+            if mname == '_parseDecoded':
+                continue
             return False, False, 'no method %s' % mname
         b = _strip_doc(m.body)
-        ok = (len(b) == 2 and isinstance(b[0], ast.With) and len(b[0].items) == 1
+        # everything happens inside one `with self.__parseSetting():` (the result may be
+        # returned from inside it or by a trailing `return name`)
+        ok = (len(b) in (1, 2) and isinstance(b[0], ast.With) and len(b[0].items) == 1
               and isinstance(b[0].items[0].context_expr, ast.Call)
               and (_dotted(b[0].items[0].context_expr.func) or '').endswith('__parseSetting')
               and not b[0].items[0].context_expr.args
-              and isinstance(b[1], ast.Return) and isinstance(b[1].value, ast.Name))
+              and ((len(b) == 2 and isinstance(b[1], ast.Return) and isinstance(b[1].value, ast.Name))
+                   or (len(b) == 1 and isinstance(b[0].body[-1], ast.Return))))
         if not ok:
             return False, False, '%s does not do its work inside `with self.__parseSetting():`' % mname
     # the other two entry points delegate to parseString and never touch the mode themselves
     for mname in ('parseFile', 'parseUrl'):
         m = _method(cls, mname)
-        if m is None or not any(isinstance(n, ast.Call) and (_dotted(n.func) or '') == 'self.parseString' for n in ast.walk(m)):
+        if m is None or not any(isinstance(n, ast.Call) and (_dotted(n.func) or '') in ('self.parseString', 'self._parseDecoded')
+                                for n in ast.walk(m)):
             return False, False, '%s does not delegate to parseString' % mname
     return True, bool(calltime), 'ok'
 
